@@ -155,9 +155,10 @@ impl Ctx {
         if self.thorough && nbits <= 6000 && !costly { bits.extend(0..nbits); } else {
             // every bit of the protection parameters and of the last 24 octets; a sample elsewhere
             let pstart = pubb.len() * 8; let pend = (w.len() - hl - ct.len()) * 8;
-            bits.extend(pstart..pend);
-            bits.extend(nbits.saturating_sub(24 * 8)..nbits);
-            for _ in 0..(if self.thorough { 600 } else { 120 }) { bits.push(self.rng.below(nbits as u64) as usize); }
+            let very_costly = matches!(params, S2kParams::Cfb { s2k: StringToKey::IteratedAndSalted { count, .. }, .. } | S2kParams::MalleableCfb { s2k: StringToKey::IteratedAndSalted { count, .. }, .. } if *count > 220);
+            if very_costly { bits.extend((pstart..pend).step_by(5)); bits.extend((nbits.saturating_sub(24 * 8)..nbits).step_by(7)); }
+            else { bits.extend(pstart..pend); bits.extend(nbits.saturating_sub(24 * 8)..nbits); }
+            for _ in 0..(if very_costly { 30 } else if self.thorough { 600 } else { 120 }) { bits.push(self.rng.below(nbits as u64) as usize); }
             bits.sort(); bits.dedup();
         }
         let aead = matches!(params, S2kParams::Aead { .. });
@@ -204,7 +205,8 @@ fn variants(rng: &mut Rng, thorough: bool) -> Vec<(String, S2kParams)> {
         ("camellia128", SymmetricKeyAlgorithm::Camellia128), ("camellia192", SymmetricKeyAlgorithm::Camellia192), ("camellia256", SymmetricKeyAlgorithm::Camellia256), ("idea", SymmetricKeyAlgorithm::IDEA)];
     for (sn, sym) in &syms {
         let bs = sym.block_size();
-        let counts: Vec<u8> = if thorough { vec![0, 1, 96, 200, 255] } else { vec![0, 96] };
+        // the costliest counts (3.4 MB and 65 MB hashed per unlock) only with a few ciphers: every flipped bit is one unlock
+        let counts: Vec<u8> = if thorough { let mut c = vec![0, 1, 96]; if matches!(*sn, "aes128" | "3des" | "twofish") { c.push(200); } if *sn == "aes128" { c.push(255); } c } else { vec![0, 96] };
         let mut specs: Vec<(String, StringToKey)> = vec![
             ("salted-sha256".into(), StringToKey::Salted { hash_alg: HashAlgorithm::Sha256, salt: salt8(rng) }),
             ("simple-sha512".into(), StringToKey::Simple { hash_alg: HashAlgorithm::Sha512 }),
